@@ -31,7 +31,7 @@ from py_gql.lang import ast as A, parse  # noqa: E402
 from py_gql.lang.parser import parse_type, parse_value  # noqa: E402
 from vf.spec import pick  # noqa: E402
 
-GAPS = (" ", "", ",", "\n", "\t", "\r\n", "#c\n", "\ufeff", " , ", "\r")
+GAPS = (" ", "", ",", "\n", "\t", "\r\n", "#c\n", "\ufeff", " , ", "\r", "#c\r", "# c \r\n", "#\n", "\n\r")       # comments ended by CR / CRLF / at once; LF CR
 
 SPAN_SOURCES = (
     ("document", 'query Q($a: [Int!]! = [1, -2.5e3] @d, $b: T) @d1(a: 1, b: $a) { al: f(x: 1.5, y: "s\\n", z: {k: [true, null, E, $b], j: {}}) @d { g ...F @d ... on T @d { h } ... { i } } j } '
@@ -247,7 +247,7 @@ CONDITIONS = [
     ),
     Cond(
         name="spans", fn=_spans, quick=150, thorough=400, per_path=60, shards_quick=10, shards_thorough=10,
-        bound="3 rich documents covering every node kind (plus, with one gap string everywhere, one witness text per expanded production alternative of the grammar) x 10 ignorable gap strings (space, nothing, comma, LF, tab, CRLF, comment, BOM, ' , ', CR) placed at every 1st/2nd/3rd token boundary x width 1..2 x 3 leading prefixes x no_location: "
+        bound="3 rich documents covering every node kind (plus, with one gap string everywhere, one witness text per expanded production alternative of the grammar) x 14 ignorable gap strings (space, nothing, comma, LF, tab, CRLF, comment ended by LF / CR / CRLF, empty comment, BOM, ' , ', CR, LF CR) placed at every 1st/2nd/3rd token boundary x width 1..2 x 3 leading prefixes x no_location: "
               "same tree as the single-space spelling, every span = (start of the node's first token, end of its last token) computed by the generator's offset arithmetic, Document = (0, len), the spanned text parses back to an equal node, loc None when disabled",
         symbolic={"src": "choice", "gap,every,offset,width,lead": "choice: where which ignorable characters go", "noloc": "choice"},
         assumptions=["token boundaries from the reference lexer; the token range of a node is taken from the single-space spelling and validated by re-parsing the spanned text"],
